@@ -253,6 +253,24 @@ theorem C10_readFrom_chunking (nb q : Nat) (c1 c2 : List (List UInt8)) (h : c1.f
     readFrom nb q c1 = readFrom nb q c2 := by
   rw [readFrom, readFrom, h]
 
+/-- **`ReadFrom` into a used receiver is by value**: the model's decode result does not depend on what the receiver held before
+    (its fields, its tables, how it was made) - for every stream, well-formed or not -/
+theorem C10_readInto_receiver_irrelevant {ρ σ : Type} (prev₁ : ρ) (prev₂ : σ) (nb q : Nat) (chunks : List (List UInt8)) :
+    readInto prev₁ nb q chunks = readInto prev₂ nb q chunks := rfl
+
+/-- … it is the domain of the stream: decoding `WriteTo(d)` into ANY receiver returns exactly `d` -/
+theorem C10_readInto_roundtrip {ρ : Type} (prev : ρ) (nb q : Nat) (d : DomainRec) (rest : List UInt8) (chunks : List (List UInt8))
+    (hchunks : chunks.flatten = encodeDomain nb d ++ rest) (hq : q ≤ 256^nb)
+    (hc : d.card < 2^64) (h1 : d.cardInv < q) (h2 : d.gen < q) (h3 : d.genInv < q) (h4 : d.g < q)
+    (h5 : d.gInv < q) :
+    readInto prev nb q chunks = .ok (d, rest) :=
+  C10_domain_roundtrip nb q d rest chunks hchunks hq hc h1 h2 h3 h4 h5
+
+/-- … and so is the whole answer to a `readinto` / `readintotab` line (fields, flag, the five transforms / the table states) -/
+theorem C10_readIntoAnswer_receiver_irrelevant (rcv₁ rcv₂ : String) (q : Nat) (kers : List Nat) (src : Domain (ZM q))
+    (v : List (ZM q)) (tab : Bool) :
+    readIntoAnswer rcv₁ q kers src v tab = readIntoAnswer rcv₂ q kers src v tab := rfl
+
 example : readFrom 1 251 [[0, 0, 0], [0, 0, 0, 0, 4, 188], [64, 51], [], [5, 101, 1, 9]]
     = .ok (⟨4, 188, 64, 51, 5, 101, true⟩, [9]) := by decide
 example : encodeDomain 1 ⟨4, 188, 64, 51, 5, 101, true⟩ = [0, 0, 0, 0, 0, 0, 0, 4, 188, 64, 51, 5, 101, 1] := by decide
